@@ -1,5 +1,6 @@
 """C12 — device selection agrees with enumeration; bad input gives errors, not
 crashes (DESIGN.md 4/C12)."""
+import re
 from .. import ir, paths, tables
 from ..exc import rule_x_barrier
 from ..build import AnalysisBroken
@@ -347,6 +348,50 @@ def loader_cleanup(prog, res):
                  "driver_open_device dereferences the driver of an absent library without a null test")
 
 
+def bounded_and_literals(prog, res, rule="R-BOUNDED"):
+    """In device.manager.cpp: a size handed together with a local character
+    array to a formatting / copying function does not exceed the array (folded
+    constants), and a (string literal, length) pair passes the literal's own
+    length (without the terminator)."""
+    n = 0
+    for f in prog.all_funcs():
+        if not f.file.endswith("device.manager.cpp") or not f.blocks:
+            continue
+        arrays = {}
+        for b, i, st_ in f.all_stmts():
+            if st_.get("k") == "decl":
+                m = re.match(r"^(?:const )?char\[(\d+)\]$", st_["var"].get("t", ""))
+                if m:
+                    arrays[st_["var"]["id"]] = int(m.group(1))
+        for b, i, st_ in f.all_stmts():
+            for c in ir.calls_in(st_):
+                args = c.get("args", [])
+                for k in range(len(args) - 1):
+                    a0, a1 = ir.strip(args[k]), ir.strip(args[k + 1])
+                    if isinstance(a0, dict) and a0.get("k") == "var" and a0.get("id") in arrays and isinstance(a1, dict) and a1.get("k") == "int":
+                        n += 1
+                        res.touched(f)
+                        inst = "%s: %s is given '%s' with a size within the array" % (f.short, c.get("fn"), a0["n"])
+                        if 0 <= a1["v"] <= arrays[a0["id"]]:
+                            res.oblige(rule, inst, True, "%d <= %d" % (a1["v"], arrays[a0["id"]]), f.loc(st_))
+                        else:
+                            res.fail(rule, inst, "%s|%s|%s" % (rule, f.short, a0["n"]), f.loc(st_),
+                                     "%s passes the %d-byte array '%s' with size %d to %s: the callee may write past it" % (f.short, arrays[a0["id"]], a0["n"], a1["v"], c.get("fn")))
+                    g_ = prog.resolve(c["fn"], f) if c.get("fn") else None
+                    is_len = g_ is not None and k + 1 < len(g_.params) and "long" in g_.params[k + 1].get("t", "") and \
+                        re.search(r"bytes|len|size", g_.params[k + 1].get("n", ""))
+                    if is_len and isinstance(a0, dict) and a0.get("k") == "str" and isinstance(a1, dict) and a1.get("k") == "int" and "len" in a0:
+                        n += 1
+                        res.touched(f)
+                        inst = "%s: the literal \"%s\" is passed with its own length" % (f.short, a0.get("v"))
+                        if a1["v"] == a0["len"] - 1:
+                            res.oblige(rule, inst, True, "%d" % a1["v"], f.loc(st_))
+                        else:
+                            res.fail(rule, inst, "%s|%s|literal-%s" % (rule, f.short, a0.get("v")), f.loc(st_),
+                                     "%s passes the pattern \"%s\" with length %d (the literal has %d characters): the terminator becomes part of the pattern, or the pattern is cut" % (f.short, a0.get("v"), a1["v"], a0["len"] - 1))
+    return n
+
+
 def run(ctx, res):
     prog = ctx.program()
     res.extra["explanation"] = EXPLANATION
@@ -362,6 +407,8 @@ def run(ctx, res):
     slot_index(prog, res)
     basics_tables(prog, res)
     loader_cleanup(prog, res)
+    res.guard(bounded_and_literals, prog, res)
+    res.require_min("R-BOUNDED", 4)
     res.require_min("X-BARRIER", 6)
     res.require_min("R-SELECT", 7)
     res.require_min("R-SLOT-INDEX", 2)
